@@ -14,7 +14,7 @@ EXPLANATION = (
     "computed from a state field that the same step supersedes (other than through the value stored in the returned "
     "state) -- a mask computed from the previous state hides legal moves or admits illegal ones on the next step; "
     "(R2) axis-kind consistency of the bounds tests inside mask functions on non-square grids (shared with C07.R1); "
-    "(R3a) where step consults state.action_mask[...], the mask stored in the State by reset/step is the same value "
+    "(R3b) where step recomputes validity instead (Knapsack, TSP, Minesweeper, ...), the mask expression rewritten over the incoming state equals that validity test after erasing the action index and normalising comparisons -- only definite mismatches (same quantities, different strictness/constant/polarity) are reported, anything that cannot be aligned is recorded as undecided; (R3a) where step consults state.action_mask[...], the mask stored in the State by reset/step is the same value "
     "as the one shown in the Observation, so 'masked-in' and 'treated as valid' coincide; (R4) move tables used by the "
     "mask agree with those used by step (shared with C09.R1). Not decided: that the mask equals the rules of each game "
     "(needs a reference semantics).")
@@ -59,7 +59,7 @@ def check(tier: str) -> Result:
         # ---- R3a
         old_mask = vfg.mk_attr(ea.state, "action_mask") if "action_mask" in sfields else None
         if old_mask is not None:
-            reads = [n for n in deps(ea.step_result) if n.kind == "index" and n.args[0] is old_mask]
+            reads = [n for n in deps(ea.step_result) if n.kind == "index" and (n.args[0] is old_mask or (n.args[0].kind == "elem" and n.args[0].args[0] is old_mask))]
             if reads:
                 reads_mask.append(ea.cls.name)
                 for which, ts, st in (("reset", ea.reset_ts, ea.reset_state), ("step", ea.step_ts, ea.step_state)):
@@ -72,12 +72,60 @@ def check(tier: str) -> Result:
                         ok = strip_cast(om) is strip_cast(sm)
                         res.add("C04.R3a", site2, fn2, f"State.action_mask (consulted by the next step) is the mask shown in the Observation [{oi}]", ok,
                                 "same value" if ok else f"state stores {txt(sm, 3, 90)} but the observation shows {txt(om, 3, 90)}")
+    # ---- R3b: mask == step-side validity where step recomputes validity
+    from .validity import compare, old_mask
+    from .common import last_conditions
+    from ..normal import negand
+    from ..terms import contains
+    r3b = {}
+    for ea in analyses(tree):
+        vfg = ea.vfg
+        if ea.cls.name not in mask_envs or ea.cls.name in reads_mask:
+            continue
+        sf = StepFlow(ea)
+        site, fn = env_site(ea, "step")
+        masks = []
+        for o in observation_leaves(ea, ea.step_ts):
+            m = dict(flat_fields(vfg, o)).get("action_mask")
+            if m is not None:
+                masks.append(m)
+        cands = []
+        if ea.step_state.kind == "choice" and ea.step_state.args[0] == "cond":
+            cands.append(("predicate of the state update", ea.step_state.args[1]))
+        for f_ in sf.fields:
+            nv = sf.new[f_]
+            if nv.kind == "choice" and nv.args[0] == "cond" and contains(nv.args[1], ea.action) and not any(nv.args[1] is c[1] for c in cands):
+                cands.append((f"guard of the update of State.{f_}", nv.args[1]))
+        try:
+            for c in last_conditions(ea):
+                n = negand(c)
+                if n is not None and contains(n, ea.action):
+                    cands.append(("negated termination condition", n))
+                elif contains(c, ea.action) and negand(c) is None and c.kind in ("index",):
+                    cands.append(("termination condition (negated)", mk("un", "~", c)))
+        except AnalysisError:
+            pass
+        verdict, why, which = None, "no step-side validity value located", ""
+        for m in masks:
+            mo = old_mask(ea, sf, m)
+            for name, v in cands:
+                ok, w = compare(mo, v, ea.action)
+                if ok is True:
+                    verdict, why, which = True, w, name
+                    break
+                if ok is False and verdict is None:
+                    verdict, why, which = False, w + f" -- mask (over the incoming state) {txt(mo, 5, 120)} vs step-side validity {txt(v, 5, 120)}", name
+            if verdict is True:
+                break
+        r3b[ea.cls.name] = {True: "equivalent", False: "MISMATCH", None: "undecided"}[verdict]
+        res.add("C04.R3b", site, fn, "the mask over the incoming state equals the validity test step applies to the action", verdict,
+                f"{which}: {why}" if which else why, nontrivial=verdict is not None)
     if len(mask_envs) < MIN_MASK_ENVS:
         raise AnalysisError(f"only {len(mask_envs)} environments with an action mask found (hand-confirmed minimum {MIN_MASK_ENVS})")
     from . import axis_rules, table_rules
     n_axis = axis_rules.add_obligations(res, tree, "C04.R2", scope="mask")
     n_tab = table_rules.add_obligations(res, tree, "C04.R4", only_mask_tables=True)
-    res.analysed = {"environments_with_mask": mask_envs, "step_consults_state_mask": reads_mask,
+    res.analysed = {"environments_with_mask": mask_envs, "step_consults_state_mask": reads_mask, "mask_vs_validity": r3b,
                     "axis_typed_sites": n_axis, "table_pairings": n_tab}
     res.assumptions = ["records are not aliased across names inside step", "exceptions: none"]
     return res
